@@ -38,11 +38,21 @@ pub struct Container {
 pub fn open_as_container_pack(reader: Reader) -> Result<ContainerPack> {
     // Check at beginning
     // First try to check without Check as we want a nice message to the user if version has changed.
-    reader.parse_block_unchecked_at::<PackHeader>(Offset::zero())?;
+    // Any other error is not definitive: the pack may be located at end of the reader
+    // (pack appended to another file), what starts the reader is not a pack header then.
+    if let Err(e) = reader.parse_block_unchecked_at::<PackHeader>(Offset::zero()) {
+        if let ErrorKind::Version(_) = *e {
+            return Err(e);
+        }
+    }
     let (pack_header, offset) = match reader.parse_block_at::<PackHeader>(Offset::zero()) {
         Ok(pack_header) => (pack_header, Offset::zero()),
-        Err(_) => {
+        Err(e) => {
             //Check at end
+            if reader.size().into_u64() < PackHeader::BLOCK_SIZE as u64 {
+                // No room for a tail
+                return Err(e);
+            }
             let mut buffer_reader = [0u8; 64];
             reader
                 .create_stream((reader.size() - Size::new(64)).into(), Size::new(64), false)?
